@@ -50,8 +50,11 @@ def touched_family(patch):
     return fams
 
 
+SEEDDIR = "seeded"
+
+
 def eval_seed(sid, base, props_mode, tier):
-    sd = os.path.join(ROOT, "seeded", sid)
+    sd = os.path.join(ROOT, SEEDDIR, sid)
     meta = json.load(open(os.path.join(sd, "meta.json")))
     target = meta.get("property") or sid.split("-")[0]
     d = os.path.join(base, sid)
@@ -113,8 +116,11 @@ def main():
     ap.add_argument("--tier", default="quick")
     ap.add_argument("--jobs", type=int, default=4)
     ap.add_argument("--out", default=os.path.join(ROOT, "seeded", "MATRIX.json"))
+    ap.add_argument("--dir", default="seeded", help="directory under /verif holding <id>/patch.diff + meta.json (seeded | harmless)")
     a = ap.parse_args()
-    seeds = a.seeds.split(",") if a.seeds else sorted(x for x in os.listdir(os.path.join(ROOT, "seeded")) if os.path.isdir(os.path.join(ROOT, "seeded", x)))
+    global SEEDDIR
+    SEEDDIR = a.dir
+    seeds = a.seeds.split(",") if a.seeds else sorted(x for x in os.listdir(os.path.join(ROOT, SEEDDIR)) if os.path.isdir(os.path.join(ROOT, SEEDDIR, x)))
     base = "/tmp/sm-%d" % os.getpid()
     os.makedirs(base)
     results = {}
